@@ -56,8 +56,12 @@ def generate(check, rng, tier, run_index):
         pre = rng.weighted([('absent', 2), ('valid_short', 3), ('valid_long', 4), ('empty', 1), ('junk', 2)])
         stem = rng.choice(['p%d', 'p%d', 'Traj_%d', 'RUN%d', 'my.run-%d'])      # upper case, dots and dashes in names are deliberate
         ent = {'name': (stem % k) + '.' + ext, 'ext': ext, 'pre': pre, 'pre_frames': 1 if pre == 'valid_short' else rng.randint(3, 6)}
-        if ext in RESTART and pre.startswith('valid') and rng.chance(0.6):
-            ent['pre_numbered'] = rng.randint(2, 5)      # numbered files name.N from an earlier multi-frame save
+        if ext in RESTART and rng.chance(0.6):
+            # numbered files name.N left by an earlier multi-frame save of n frames (zero-padded when n >= 10) -- all of
+            # them, or only some (the others were deleted by the user): only the last, only one in the middle, a few
+            ent['pre_numbered'] = rng.weighted([(rng.randint(2, 5), 4), (rng.randint(9, 12), 3)])
+            ent['pre_numbered_keep'] = rng.weighted([('all', 3), ('last', 2), ('first', 1), ('one', 2), ('some', 2)])
+            ent['pre_numbered_seed'] = rng.below(1 << 20)
         paths.append(ent)
     nops = rng.randint(3, 14 if tier == 'quick' else 25)
     ops = []
@@ -65,7 +69,7 @@ def generate(check, rng, tier, run_index):
         p = rng.below(npaths)
         kind = rng.weighted([('save', 10), ('open_w', 5), ('read', 6)])
         if kind == 'save':
-            ops.append({'op': 'save', 'p': p, 'frames': rng.weighted([(1, 4), (2, 3), (3, 2), (rng.randint(4, 12), 1)]),
+            ops.append({'op': 'save', 'p': p, 'frames': rng.weighted([(1, 4), (2, 3), (3, 2), (rng.randint(4, 12), 2), (10, 1)]),
                         'fo': rng.chance(0.5), 'seed': rng.below(1 << 20)})
         elif kind == 'open_w':
             ops.append({'op': 'open_w', 'p': p, 'fo': rng.chance(0.5), 'then': rng.choice(['close', 'write_close', 'write_close']),
@@ -201,12 +205,29 @@ def _execute(check, case, workdir):
             if ext in RESTART:
                 _traj(1, 7 + k).save(p)
                 st = {'valid': True, 'n': 1}
-                if ent.get('pre_numbered'):
-                    _traj(ent['pre_numbered'], 9 + k).save(p)       # writes p.1 .. p.N next to p
             else:
                 _traj(n, 7 + k).save(p)
                 st = {'valid': True, 'n': n}
-        elif ent['pre'] == 'empty':
+        if ext in RESTART and ent.get('pre_numbered'):
+            npre = ent['pre_numbered']
+            _traj(npre, 9 + k).save(p)                               # writes p.1 .. p.N (zero-padded for N >= 10) next to p
+            names = _targets(p, ext, npre)
+            keep = ent.get('pre_numbered_keep', 'all')
+            r = np.random.RandomState(ent.get('pre_numbered_seed', 0))
+            if keep == 'last':
+                kept = names[-1:]
+            elif keep == 'first':
+                kept = names[:1]
+            elif keep == 'one':
+                kept = [names[r.randint(len(names))]]
+            elif keep == 'some':
+                kept = [x for x in names if r.uniform() < 0.4] or names[1:2]
+            else:
+                kept = names
+            for x in names:
+                if x not in kept and os.path.exists(x):
+                    os.unlink(x)
+        if ent['pre'] == 'empty':
             if ext == 'dtr':
                 os.makedirs(p)
             else:
